@@ -384,3 +384,241 @@ pub fn replay_a(case: &Value) -> Result<Vec<(String, String)>, String> {
         _ => vec![],
     })
 }
+
+// ------------------------------------------------------------------------------------------------
+// Part C: component pipelines on prepared populations. Whatever selection, recombination, mutation,
+// boundary repair, replacement, stack utility or evaluation step ran, no individual anywhere on the
+// stack may report an objective value other than the one the objective function assigns to its solution.
+// ------------------------------------------------------------------------------------------------
+
+pub mod pipeline {
+    use crate::engine::report::{Part, Report, Tier};
+    use crate::engine::tape::{self, Cfg, Outcome, MENU4};
+    use crate::engine::util::catch;
+    use crate::subject::prep::{run_component, state_with};
+    use crate::subject::problems::{so, FKind, Instr, RealP};
+    use mahf::components::{boundary, mutation, recombination, replacement, selection, utils};
+    use mahf::identifier::Global;
+    use mahf::problems::evaluate::{Parallel, Sequential};
+    use mahf::{Component, Individual};
+    use rayon::prelude::*;
+    use serde_json::{json, Value};
+
+    type C = Box<dyn Component<RealP>>;
+
+    pub fn stages() -> Vec<(&'static str, Box<dyn Fn() -> Option<C> + Send + Sync>)> {
+        macro_rules! st {
+            ($v:expr, $name:expr, $e:expr) => {
+                $v.push(($name, Box::new(move || -> Option<C> { $e }) as Box<dyn Fn() -> Option<C> + Send + Sync>));
+            };
+        }
+        let mut v = vec![];
+        st!(v, "selection::All", Some(selection::All::new()));
+        st!(v, "selection::None", Some(selection::None::new()));
+        st!(v, "selection::CloneSingle(3)", Some(selection::CloneSingle::new(3)));
+        st!(v, "selection::FullyRandom(3)", Some(selection::FullyRandom::new(3)));
+        st!(v, "selection::RandomWithoutRepetition(2)", Some(selection::RandomWithoutRepetition::new(2)));
+        st!(v, "selection::RouletteWheel(3)", Some(selection::RouletteWheel::new(3, 0.1)));
+        st!(v, "selection::StochasticUniversalSampling(3)", Some(selection::StochasticUniversalSampling::new(3, 0.1)));
+        st!(v, "selection::Tournament(3,2)", Some(selection::Tournament::new(3, 2)));
+        st!(v, "selection::LinearRank(3)", Some(selection::LinearRank::new(3)));
+        st!(v, "selection::ExponentialRank(3)", selection::ExponentialRank::new(3, 0.5).ok());
+        st!(v, "selection::DERand(1)", selection::de::DERand::new(1).ok());
+        st!(v, "selection::DEBest(1)", selection::de::DEBest::new(1).ok());
+        st!(v, "selection::DECurrentToBest(1)", selection::de::DECurrentToBest::new(1).ok());
+        st!(v, "selection::DeterministicFitnessProportional(1,2)", Some(selection::iwo::DeterministicFitnessProportional::new(1, 2)));
+        for (pc, both) in [(0.5, false), (0.5, true), (1.0, false), (1.0, true)] {
+            let n: &'static str = Box::leak(format!("NPointCrossover(1,{},{})", pc, both).into_boxed_str());
+            st!(v, n, Some(recombination::NPointCrossover::new::<RealP, f64>(1, pc, both)));
+            let n: &'static str = Box::leak(format!("UniformCrossover({},{})", pc, both).into_boxed_str());
+            st!(v, n, Some(recombination::UniformCrossover::new::<RealP, f64>(pc, both)));
+            let n: &'static str = Box::leak(format!("ArithmeticCrossover({},{})", pc, both).into_boxed_str());
+            st!(v, n, Some(recombination::ArithmeticCrossover::new::<RealP>(pc, both)));
+        }
+        st!(v, "DEBinomialCrossover(0.5)", Some(recombination::de::DEBinomialCrossover::new(0.5)));
+        st!(v, "DEExponentialCrossover(0.5)", Some(recombination::de::DEExponentialCrossover::new(0.5)));
+        st!(v, "DEMutation(1,0.5)", mutation::de::DEMutation::new(1, 0.5).ok());
+        st!(v, "NormalMutation(0.3,0.5)", Some(mutation::NormalMutation::new(0.3, 0.5)));
+        st!(v, "NormalMutation(0.3,0)", Some(mutation::NormalMutation::new(0.3, 0.0)));
+        st!(v, "UniformMutation(0.5,0.5)", Some(mutation::UniformMutation::new(0.5, 0.5)));
+        st!(v, "PartialRandomSpread(0.5)", Some(mutation::PartialRandomSpread::new(0.5)));
+        st!(v, "boundary::Saturation", Some(boundary::Saturation::new()));
+        st!(v, "boundary::Toroidal", Some(boundary::Toroidal::new()));
+        st!(v, "boundary::Mirror", Some(boundary::Mirror::new()));
+        st!(v, "boundary::CompleteOneTailedNormalCorrection", Some(boundary::CompleteOneTailedNormalCorrection::new()));
+        st!(v, "replacement::DiscardOffspring", Some(replacement::DiscardOffspring::new()));
+        st!(v, "replacement::Merge", Some(replacement::Merge::new()));
+        st!(v, "replacement::MuPlusLambda(3)", Some(replacement::MuPlusLambda::new(3)));
+        st!(v, "replacement::Generational(3)", Some(replacement::Generational::new(3)));
+        st!(v, "replacement::RandomReplacement(3)", Some(replacement::RandomReplacement::new(3)));
+        st!(v, "replacement::KeepBetterAtIndex", Some(replacement::KeepBetterAtIndex::new()));
+        st!(v, "utils::ClearPopulation", Some(utils::populations::ClearPopulation::new()));
+        st!(v, "utils::RotatePopulations(1)", Some(utils::populations::RotatePopulations::new(1)));
+        st!(v, "utils::SplitPopulationByObjectiveValue", Some(utils::populations::SplitPopulationByObjectiveValue::new()));
+        st!(v, "utils::InterleavePopulations", Some(utils::populations::InterleavePopulations::new()));
+        st!(v, "utils::DuplicatePopulation", Some(utils::populations::DuplicatePopulation::new()));
+        st!(v, "evaluate(Sequential)", Some(mahf::components::evaluation::PopulationEvaluator::<Global>::new()));
+        v
+    }
+
+    fn sol(k: usize) -> Vec<f64> {
+        // inside and outside the domain [-1, 2)^2, distinct objective values
+        const G: [[f64; 2]; 8] = [[0.5, -0.25], [1.5, 0.75], [-0.5, 0.125], [0.0, 1.0], [2.5, 0.5], [-1.75, -3.0], [0.25, 0.25], [1.0, -1.0]];
+        G[k % 8].to_vec()
+    }
+
+    /// prepared stacks (bottom first); `true` = carries f(solution), `false` = not evaluated
+    pub fn stacks() -> Vec<(&'static str, Vec<Vec<(usize, bool)>>)> {
+        vec![
+            ("one-evaluated", vec![vec![(0, true), (1, true), (2, true), (3, true)]]),
+            ("two-evaluated", vec![vec![(0, true), (1, true), (2, true)], vec![(3, true), (4, true), (5, true)]]),
+            ("top-mixed", vec![vec![(0, true), (1, true), (2, true)], vec![(3, true), (6, false), (7, true)]]),
+            ("top-unevaluated", vec![vec![(0, true), (1, true), (2, true)], vec![(3, false), (4, false), (1, false)]]),
+            ("top-has-duplicates", vec![vec![(0, true), (1, true), (2, true)], vec![(0, true), (0, false), (2, true)]]),
+        ]
+    }
+
+    /// (stale findings, number of stages that returned Ok)
+    pub type Obs = (Vec<String>, u8);
+
+    /// runs stages `a`, `b`, then an evaluation step with the `par` evaluator; returns the stale findings
+    pub fn run_pipeline(a: usize, b: usize, stack: usize, par: bool) -> Obs {
+        let problem = RealP::new(2, -1.0, 2.0, FKind::Shifted, Instr::new());
+        let stgs = stages();
+        let pops: Vec<Vec<Individual<RealP>>> = stacks()[stack]
+            .1
+            .iter()
+            .map(|p| p.iter().map(|(k, ev)| if *ev { Individual::new(sol(*k), so(problem.f(&sol(*k)))) } else { Individual::new_unevaluated(sol(*k)) }).collect())
+            .collect();
+        let mut st = state_with::<RealP>(pops);
+        st.insert(mahf::state::common::Evaluations(0));
+        if par {
+            st.insert_evaluator(Parallel::<RealP>::new());
+        } else {
+            st.insert_evaluator(Sequential::<RealP>::new());
+        }
+        let mut found = vec![];
+        let mut oks = 0u8;
+        let walk = |st: &mahf::State<'static, RealP>, after: &str, found: &mut Vec<String>| {
+            let pops = st.populations();
+            for d in 0..pops.len() {
+                for (i, ind) in pops.peek(d).iter().enumerate() {
+                    if let Some(o) = ind.get_objective() {
+                        let f = problem.f(ind.solution());
+                        if o.value().to_bits() != f.to_bits() {
+                            found.push(format!("after {}: individual {} of population {} (from the top) has solution {:?} and reports {:?}, the objective function assigns {:?}", after, i, d, ind.solution(), o.value(), f));
+                        }
+                    }
+                }
+            }
+        };
+        for (k, idx) in [a, b].iter().enumerate() {
+            let (name, mk) = &stgs[*idx];
+            let c = match mk() {
+                Some(c) => c,
+                None => return (vec![format!("constructor of {} failed", name)], oks),
+            };
+            // errors and panics of a stage on a stack it does not fit are not this property's concern
+            if let Ok(Ok(())) = catch(|| run_component(c.as_ref(), &problem, &mut st)) {
+                oks += 1;
+            }
+            walk(&st, &format!("stage {} ({})", k + 1, name), &mut found);
+            if !found.is_empty() {
+                return (found, oks);
+            }
+        }
+        if st.populations().len() == 0 {
+            return (found, oks);
+        }
+        let ev = mahf::components::evaluation::PopulationEvaluator::<Global>::new();
+        let r = catch(|| run_component(ev.as_ref(), &problem, &mut st));
+        walk(&st, if par { "the evaluation step (Parallel)" } else { "the evaluation step (Sequential)" }, &mut found);
+        if let Ok(Ok(())) = r {
+            oks += 1;
+            let pops = st.populations();
+            for (i, ind) in pops.current().iter().enumerate() {
+                if !ind.is_evaluated() {
+                    found.push(format!("after the evaluation step individual {} of the current population is not evaluated", i));
+                }
+            }
+        }
+        (found, oks)
+    }
+
+    fn sig(a: &str, b: &str, detail: &str) -> String {
+        let fam = |n: &str| n.split(['(', ':']).next().unwrap_or("").to_string();
+        let at = if detail.starts_with("after stage 1") {
+            format!("after={}", a.split('(').next().unwrap_or(a))
+        } else if detail.starts_with("after stage 2") {
+            format!("after={}", b.split('(').next().unwrap_or(b))
+        } else {
+            "after=evaluation".to_string()
+        };
+        let _ = fam;
+        format!("C05 pipeline {} stale-objective", at)
+    }
+
+    pub fn run(rep: &mut Report) {
+        let thorough = rep.tier == Tier::Thorough;
+        let stgs = stages();
+        let names: Vec<&'static str> = stgs.iter().map(|s| s.0).collect();
+        rep.alpha(&format!("component pipelines: every ordered pair of {} stages (selections, recombinations with insert_single / insert_both and pc 0.5 / 1, mutations, boundary repairs, replacements, stack utilities, evaluation) on 5 prepared stacks (evaluated, mixed, unevaluated, duplicates), followed by an evaluation step with the Sequential or the Parallel evaluator; generator words of the first 2 (quick) / 3 (thorough) draws from a menu of 4", names.len()));
+        let depth = if thorough { 3 } else { 2 };
+        let seed = rep.seed;
+        let mut part = Part::new("components.pipelines");
+        part.bound("stages", names.len() as u64).bound("stacks", stacks().len() as u64).bound("prefix_depth", depth as u64);
+        let n = names.len();
+        let jobs: Vec<(usize, usize)> = (0..n).flat_map(|a| (0..n).map(move |b| (a, b))).collect();
+        let subs: Vec<Part> = jobs
+            .par_iter()
+            .map(|&(a, b)| {
+                let mut sub = Part::new("x");
+                for s in 0..stacks().len() {
+                    for par in [false, true] {
+                        if par && !thorough && (a + b + s) % 3 != 0 {
+                            continue;
+                        }
+                        let cfg = Cfg::prefix(&MENU4, depth, seed ^ ((a * 64 + b) as u64));
+                        let body = || run_pipeline(a, b, s, par);
+                        tape::explore(&cfg, &body, &mut |prefix, out, _| {
+                            sub.transitions += 3;
+                            sub.traces += 1;
+                            match out {
+                                Outcome::Done((found, oks)) => {
+                                    sub.outcome(format!("{}-of-3-stages-ok", oks));
+                                    if let Some(d) = found.first() {
+                                        sub.violate(sig(names[a], names[b], d), format!("stack {} ; {} ; {} ; evaluate: {}", stacks()[s].0, names[a], names[b], d), json!({"pipeline": [a, b, s], "par": par, "tape": prefix, "depth": depth, "seed": seed ^ ((a * 64 + b) as u64)}));
+                                    }
+                                }
+                                Outcome::Panic(m) => sub.machinery(format!("pipeline harness panicked: {}", m)),
+                                Outcome::Truncated => sub.truncated += 1,
+                                Outcome::Diverged(m) => sub.machinery(format!("tape divergence: {}", m)),
+                            }
+                        });
+                        sub.states += 1;
+                    }
+                }
+                sub.outcome(names[a].split(['(', ':']).next().unwrap_or("").to_string());
+                sub
+            })
+            .collect();
+        for s in subs {
+            part.absorb(s);
+        }
+        part.sample(json!({"stack": "top-mixed", "stages": ["selection::Tournament(3,2)", "UniformCrossover(0.5,false)"], "then": "evaluate with Parallel"}));
+        rep.push(part);
+    }
+
+    pub fn replay(case: &Value) -> Result<Vec<(String, String)>, String> {
+        let p: Vec<usize> = case["pipeline"].as_array().ok_or("no pipeline")?.iter().map(|x| x.as_u64().unwrap() as usize).collect();
+        let par = case["par"].as_bool().unwrap_or(false);
+        let tape: Vec<u32> = case["tape"].as_array().ok_or("no tape")?.iter().map(|x| x.as_u64().unwrap() as u32).collect();
+        let cfg = Cfg::prefix(&MENU4, case["depth"].as_u64().unwrap_or(2) as usize, case["seed"].as_u64().unwrap_or(0));
+        let names: Vec<&'static str> = stages().iter().map(|s| s.0).collect();
+        let (out, _) = tape::run_once(&cfg, &tape, || run_pipeline(p[0], p[1], p[2], par));
+        Ok(match out {
+            Outcome::Done((found, _)) => found.first().map(|d| (sig(names[p[0]], names[p[1]], d), d.clone())).into_iter().collect(),
+            _ => vec![],
+        })
+    }
+}
